@@ -187,4 +187,23 @@ theorem ofList_spec (r : Nat) (ts : List Triple) :
   rw [h]
   simp [not_InG_init]
 
+/-! ### every operation of a history keeps the invariant -/
+
+theorem step_inv {m : Mem} (hI : Inv m) (op : Op) : Inv (m.step op) := by
+  cases op with
+  | add t g => exact (add_spec hI t g).1
+  | addN g qs => exact (addN_spec g qs m hI).1
+  | remove pat g => exact (remove_spec hI pat g).1
+  | set t g => exact (set_spec hI t g).1
+  | iadd g ts => exact (iadd_spec hI g ts).1
+  | iaddG g h => exact (iadd_spec hI g _).1
+  | isub g ts => exact (isub_spec g ts m hI).1
+  | isubG g h => exact (isub_spec g _ m hI).1
+
+theorem run_inv : ∀ (ops : List Op) (m : Mem), Inv m → Inv (m.run ops) := by
+  intro ops
+  induction ops with
+  | nil => intro m h; exact h
+  | cons op r ih => intro m h; exact ih _ (step_inv h op)
+
 end RV.C01
